@@ -182,6 +182,26 @@ package j5convert
 //@   |   && (exclMin(intField(node).Rules) ==> typeis(r64(result0.Options).GreaterThan, *validate.Int64Rules_Gt) && as(*validate.Int64Rules_Gt, r64(result0.Options).GreaterThan).Gt == *intField(node).Rules.Minimum)
 //@   |   && (!exclMin(intField(node).Rules) ==> typeis(r64(result0.Options).GreaterThan, *validate.Int64Rules_Gte) && as(*validate.Int64Rules_Gte, r64(result0.Options).GreaterThan).Gte == *intField(node).Rules.Minimum)
 
+//@ spec func ru32(o *descriptorpb.FieldOptions) *validate.UInt32Rules = as(*validate.FieldConstraints_Uint32, vrules(o).Type).Uint32
+//@ spec func ru64(o *descriptorpb.FieldOptions) *validate.UInt64Rules = as(*validate.FieldConstraints_Uint64, vrules(o).Type).Uint64
+//@ func buildField
+//@   ensures uint32max: result1 == nil && isInt(node, schema_j5pb.IntegerField_FORMAT_UINT32) && intField(node).Rules.Maximum != nil && 0 <= *intField(node).Rules.Maximum && *intField(node).Rules.Maximum <= 4294967295 ==>
+//@   |   vrules(result0.Options) != nil && typeis(vrules(result0.Options).Type, *validate.FieldConstraints_Uint32) && ru32(result0.Options) != nil
+//@   |   && (exclMax(intField(node).Rules) ==> typeis(ru32(result0.Options).LessThan, *validate.UInt32Rules_Lt) && int64(as(*validate.UInt32Rules_Lt, ru32(result0.Options).LessThan).Lt) == *intField(node).Rules.Maximum)
+//@   |   && (!exclMax(intField(node).Rules) ==> typeis(ru32(result0.Options).LessThan, *validate.UInt32Rules_Lte) && int64(as(*validate.UInt32Rules_Lte, ru32(result0.Options).LessThan).Lte) == *intField(node).Rules.Maximum)
+//@   ensures uint32min: result1 == nil && isInt(node, schema_j5pb.IntegerField_FORMAT_UINT32) && intField(node).Rules.Minimum != nil && 0 <= *intField(node).Rules.Minimum && *intField(node).Rules.Minimum <= 4294967295 ==>
+//@   |   vrules(result0.Options) != nil && typeis(vrules(result0.Options).Type, *validate.FieldConstraints_Uint32) && ru32(result0.Options) != nil
+//@   |   && (exclMin(intField(node).Rules) ==> typeis(ru32(result0.Options).GreaterThan, *validate.UInt32Rules_Gt) && int64(as(*validate.UInt32Rules_Gt, ru32(result0.Options).GreaterThan).Gt) == *intField(node).Rules.Minimum)
+//@   |   && (!exclMin(intField(node).Rules) ==> typeis(ru32(result0.Options).GreaterThan, *validate.UInt32Rules_Gte) && int64(as(*validate.UInt32Rules_Gte, ru32(result0.Options).GreaterThan).Gte) == *intField(node).Rules.Minimum)
+//@   ensures uint64max: result1 == nil && isInt(node, schema_j5pb.IntegerField_FORMAT_UINT64) && intField(node).Rules.Maximum != nil && 0 <= *intField(node).Rules.Maximum ==>
+//@   |   vrules(result0.Options) != nil && typeis(vrules(result0.Options).Type, *validate.FieldConstraints_Uint64) && ru64(result0.Options) != nil
+//@   |   && (exclMax(intField(node).Rules) ==> typeis(ru64(result0.Options).LessThan, *validate.UInt64Rules_Lt) && int64(as(*validate.UInt64Rules_Lt, ru64(result0.Options).LessThan).Lt) == *intField(node).Rules.Maximum)
+//@   |   && (!exclMax(intField(node).Rules) ==> typeis(ru64(result0.Options).LessThan, *validate.UInt64Rules_Lte) && int64(as(*validate.UInt64Rules_Lte, ru64(result0.Options).LessThan).Lte) == *intField(node).Rules.Maximum)
+//@   ensures uint64min: result1 == nil && isInt(node, schema_j5pb.IntegerField_FORMAT_UINT64) && intField(node).Rules.Minimum != nil && 0 <= *intField(node).Rules.Minimum ==>
+//@   |   vrules(result0.Options) != nil && typeis(vrules(result0.Options).Type, *validate.FieldConstraints_Uint64) && ru64(result0.Options) != nil
+//@   |   && (exclMin(intField(node).Rules) ==> typeis(ru64(result0.Options).GreaterThan, *validate.UInt64Rules_Gt) && int64(as(*validate.UInt64Rules_Gt, ru64(result0.Options).GreaterThan).Gt) == *intField(node).Rules.Minimum)
+//@   |   && (!exclMin(intField(node).Rules) ==> typeis(ru64(result0.Options).GreaterThan, *validate.UInt64Rules_Gte) && int64(as(*validate.UInt64Rules_Gte, ru64(result0.Options).GreaterThan).Gte) == *intField(node).Rules.Minimum)
+
 // ---- service methods (C02) -------------------------------------------------------------------------
 // The HTTP rule of a method carries the resolved path with every ":name" segment rewritten to
 // "{snake(name)}" and every other segment unchanged; httpPath names that string: the "/"-join of the
